@@ -16,7 +16,7 @@ def run(ctx):
     ctx.cov['source_hash'] = source_hash(FILES)
     prove(ctx)
     driver = build_model_driver(ctx, 'callrcu', 'ExtractCallRcu.v', 'callrcu_driver.ml')
-    CR.run_scen(ctx, PROGS, 300 if ctx.quick() else 4000, 'C04', driver, extra_cases=handoff_cases(ctx))
+    CR.run_scen(ctx, PROGS, 300 if ctx.quick() else 4000, 'C04', driver, extra_cases=handoff_cases(ctx) + CR.handshake_cases(ctx))
     return finish(ctx, trusted=__import__('props.C03', fromlist=['TRUSTED']).TRUSTED + ['completion object reference counting is exercised (ASan-free run) but not modelled'],
                   rule='as C03, with 1-2 concurrent rcu_barrier() callers, helpers created/destroyed during the barrier; barrier oracle: every callback whose call_rcu() returned '
                        'before the barrier call has finished when it returns; stuck-state oracle')
